@@ -779,3 +779,9 @@ SEEDED["C17"] += [
 BENIGN["C17"] += [
     (ATM, "    Jh = (cn2*(h**(5./3.))).sum(axis)\n", "    Jh = (cn2*numpy.cbrt(numpy.asarray(h, dtype=float)**5)).sum(axis)\n"),
 ]
+BENIGN["C08"] += [
+    (TURBF, "    r = numpy.float64(r)\n", "    sep_ = numpy.float64(r)\n    r = sep_\n"),
+]
+BENIGN["C08"] += [
+    (TURBF, "    r = numpy.float64(r)\n", "    r_ = r\n    r = numpy.float64(r_)\n"),
+]
